@@ -90,6 +90,11 @@ struct Chan {
     hcur: Content,
     ccur: Content,
     hnxt: Option<Content>,
+    /// the number of a revocation that was refused: the node retries with the same number
+    /// (a refused request changes nothing, so this is the signer's next number anyway)
+    pending_revoke: Option<u64>,
+    /// holder commitment numbers whose secret a revocation reply handed out
+    disclosed: Vec<u64>,
 }
 
 struct Sys {
@@ -137,7 +142,7 @@ impl Sys {
             sys.node.setup_channel(id.clone(), None, setup.clone(), &DerivationPath::master()).expect("setup");
             let keys = make_test_counterparty_keys(&sys.nctx(), &id, VALUE);
             let ctx = TestChannelContext { channel_id: id.clone(), setup, counterparty_keys: keys };
-            sys.chans.push(Chan { id, ctx, hcur: Content::default(), ccur: Content::default(), hnxt: None });
+            sys.chans.push(Chan { id, ctx, hcur: Content::default(), ccur: Content::default(), hnxt: None, pending_revoke: None, disclosed: vec![] });
             // initial commitments on both sides, without HTLCs
             let nctx = sys.nctx();
             let mut c0 = channel_commitment(&nctx, &sys.chans[i].ctx, 0, 1100, VALUE - 1000, 0, vec![], vec![]);
@@ -207,14 +212,66 @@ impl Sys {
     }
 
     fn revoke(&mut self, i: usize) -> bool {
-        let n = self.estate(i).next_holder_commit_num;
+        let n = self.chans[i].pending_revoke.unwrap_or(self.estate(i).next_holder_commit_num);
         let r = self.node.with_channel(&self.chans[i].id, |ch| ch.revoke_previous_holder_commitment(n));
-        if r.is_ok() {
-            if let Some(c) = self.chans[i].hnxt.take() {
-                self.chans[i].hcur = c;
+        match &r {
+            Ok((_, secret)) => {
+                self.chans[i].pending_revoke = None;
+                if secret.is_some() && n >= 1 {
+                    self.chans[i].disclosed.push(n - 1);
+                }
+                if let Some(c) = self.chans[i].hnxt.take() {
+                    self.chans[i].hcur = c;
+                }
             }
+            Err(_) => self.chans[i].pending_revoke = Some(n),
         }
         r.is_ok()
+    }
+
+    /// C02 after a disclosure: a signer restored from a copy of the store is asked to sign, for
+    /// broadcast, every holder commitment whose secret a revocation reply of channel `i` handed out
+    fn c02_probe(&self, i: usize) -> Vec<String> {
+        let mut v = vec![];
+        if let Some(shadow) = self.world.restore_on_copy(&self.node_id) {
+            for n in self.chans[i].disclosed.iter().rev().take(2) {
+                let r = catch_unwind(AssertUnwindSafe(|| shadow.with_channel(&self.chans[i].id, |ch| ch.sign_holder_commitment_tx_phase2(*n)).is_ok()));
+                if matches!(r, Ok(true)) {
+                    v.push(format!(
+                        "C02: a signer restarted right after the revocation reply that handed out the secret of holder commitment {} of channel {} signs that commitment for broadcast",
+                        n, i
+                    ));
+                }
+            }
+        }
+        v
+    }
+
+    /// C02 at the end of a history: the signer is restarted from its store and asked for its
+    /// signature on the current holder commitment of every channel (a force close); none of the
+    /// numbers it signs may be one whose secret a revocation reply handed out
+    fn force_close_all(&mut self) -> Vec<String> {
+        let mut v = vec![];
+        let (world, id) = (&self.world, self.node_id);
+        match catch_unwind(AssertUnwindSafe(|| world.restart(&id))) {
+            Ok(n) => self.node = n,
+            Err(_) => return v,
+        }
+        for i in 0..self.chans.len() {
+            let node = self.node.clone();
+            let cid = self.chans[i].id.clone();
+            let next = self.estate(i).next_holder_commit_num;
+            for n in [next.saturating_sub(1), next] {
+                let r = catch_unwind(AssertUnwindSafe(|| node.with_channel(&cid, |ch| ch.sign_holder_commitment_tx_phase2(n)).is_ok()));
+                if matches!(r, Ok(true)) && self.chans[i].disclosed.contains(&n) {
+                    v.push(format!(
+                        "C02: after a restart channel {} signs holder commitment {} for broadcast although a revocation reply handed out the secret of {} (disclosed: {:?})",
+                        i, n, n, self.chans[i].disclosed
+                    ));
+                }
+            }
+        }
+        v
     }
 
     fn observe(&self) -> String {
@@ -330,10 +387,14 @@ fn run_case(case: usize, nch: usize, script: Option<Vec<Op>>, rng: &mut Rng, len
     let mut bolt11: BTreeMap<u64, lightning_signer::invoice::Invoice> = BTreeMap::new();
     let mut aborted = false;
     let n_steps = script.as_ref().map(|s| s.len()).unwrap_or(len);
+    let mut retry_revoke: Option<usize> = None;
     for step in 0..n_steps {
         let op = match &script {
             Some(s) => s[step].clone(),
+            // a node whose revocation was refused although a validated successor is waiting asks again
+            None if retry_revoke.is_some() && rng.chance(2, 3) => Op::Revoke(retry_revoke.take().unwrap()),
             None => {
+                retry_revoke = None;
                 let i = rng.below(nch as u64) as usize;
                 match rng.below(20) {
                     0 | 1 | 2 => {
@@ -518,6 +579,19 @@ fn run_case(case: usize, nch: usize, script: Option<Vec<Op>>, rng: &mut Rng, len
                 violations.push(format!("C11: after {} ({}) a restart would differ: {}", j, if ok { "Ok" } else { "Err" }, d.join("; ")));
             }
         }
+        // C02: whatever a revocation reply handed out must not be signable after a restart
+        if let Op::Revoke(i) = &op {
+            if !ok && sys.chans[*i].hnxt.is_some() {
+                retry_revoke = Some(*i);
+            }
+            if ok {
+                for x in sys.c02_probe(*i) {
+                    if !violations.contains(&x) {
+                        violations.push(x);
+                    }
+                }
+            }
+        }
         // the property itself, from the harness's own record of accepted contents
         if ok && is_update {
             for (k, h) in HASHES.iter().enumerate() {
@@ -552,6 +626,9 @@ fn run_case(case: usize, nch: usize, script: Option<Vec<Op>>, rng: &mut Rng, len
         ops.push(coq);
         obs.push(format!("({}, {})", coq_bool(ok), sys.observe()));
         jops.push(json!({"op": j, "ok": ok}));
+    }
+    if !aborted {
+        violations.extend(sys.force_close_all());
     }
     let hashes: Vec<String> = HASHES.iter().map(|h| h.to_string()).collect();
     let coq = format!(
@@ -595,6 +672,13 @@ fn run(args: &Args) {
         // unbacked outgoing, then backed by incoming on the other channel
         (2, vec![Op::SignCp(0, one(3, 60_000, true)), Op::SignCp(1, one(3, 60_000, false)),
                  Op::Validate(1, one(3, 60_000, false)), Op::Revoke(1), Op::SignCp(0, one(3, 60_000, true))]),
+        // the same payment goes out on B between the validation and the revocation on A: the
+        // revocation is refused at its payment re-check, asked again, and again after a restart
+        (2, vec![Op::Invoice(1, 100_000_000), Op::Validate(0, one(1, 100_000, true)),
+                 Op::SignCp(1, one(1, 100_000, true)), Op::Revoke(0), Op::Revoke(0), Op::Restart, Op::Revoke(0)]),
+        (3, vec![Op::Invoice(2, 50_000_000), Op::Validate(2, one(2, 50_000, true)),
+                 Op::SignCp(0, one(2, 50_000, true)), Op::Revoke(2), Op::Revoke(2), Op::Validate(2, Content::default()),
+                 Op::Revoke(2)]),
     ];
     let mut case = 0usize;
     let mut emit_case = |v: serde_json::Value, n_viol: &mut u64, counts: &mut BTreeMap<String, (u64, u64)>| {
